@@ -99,6 +99,9 @@ type Exec struct {
 	SS        *StoreState
 	EnvNondet []string
 	sigs      []sigEntry
+	sigRecs   []sigRec
+	txs       map[*ArrObj]*absTx
+	addrs     []*btcAddr
 	LenientCalls map[string]int
 	regions   map[string]*Term
 }
